@@ -57,7 +57,7 @@ def sym_task(task):
     t0 = time.time()
     out = {'group': gname, 'cfg': cfg, 'paths': 0, 'vcs': 0, 'clauses': {}, 'failures': [],
            'cross': [], 'canaries': {}, 'error': None, 'undecided': [], 'solver_s': 0.0,
-           'stats': {}, 'samples': None, 'exceptions': {}}
+           'stats': {}, 'samples': None, 'exceptions': {}, 'unknown_budget': 8}
     try:
         import z3
         from . import api
@@ -105,10 +105,30 @@ def sym_task(task):
             out['vcs'] += len(conds)
             for n in names:
                 out['clauses'].setdefault(n, 'unsat')
-            verdict, model = c.prove(z3.And(*conds), prove_timeout) if conds else ('unsat', None)
-            if verdict != 'unsat':
-                for (n, _, info), cond in zip(obs, conds):
-                    v, m = c.prove(cond, prove_timeout)
+            # cheap refutation first: a clause that the path's own model (kept by the explorer for the cross-check)
+            # falsifies needs no proof attempt - on nonlinear clauses that are FALSE the solver otherwise spends the whole
+            # budget per clause and path (a seeded change made one configuration run > 25 min and end undecided).
+            # The model is only used if it satisfies every assertion of the path solver; the counterexample is replayed
+            # natively like any other.
+            quick_ce = {}
+            pm = c.path_model() if conds else None
+            if pm is not None:
+                try:
+                    if z3.is_true(pm.eval(z3.And(*c.solver.assertions()), model_completion=True)):
+                        for i, cond in enumerate(conds):
+                            if z3.is_false(pm.eval(cond, model_completion=True)): quick_ce[i] = pm
+                except z3.Z3Exception:
+                    quick_ce = {}
+            rest = [cond for i, cond in enumerate(conds) if i not in quick_ce]
+            verdict, model = c.prove(z3.And(*rest), prove_timeout if out['unknown_budget'] > 0 else 2000) if rest else ('unsat', None)
+            if verdict != 'unsat' or quick_ce:
+                for i, ((n, _, info), cond) in enumerate(zip(obs, conds)):
+                    if i in quick_ce: v, m = 'sat', quick_ce[i]
+                    elif verdict == 'unsat': continue
+                    elif out['unknown_budget'] <= 0: v, m = 'unknown', None
+                    else:
+                        v, m = c.prove(cond, prove_timeout)
+                        if v == 'unknown': out['unknown_budget'] -= 1
                     if v == 'sat':
                         out['clauses'][n] = 'sat'
                         if sum(1 for f in out['failures'] if f['clause'] == n) < 3:
@@ -238,6 +258,8 @@ def run_property(prop, tier='quick', jobs=None, seed=0, only=None, write_baselin
         cfgs = list(g.configs(tier))
         if not cfgs:
             print(f'ENGINE-ERROR: group {gname} has no configurations'); return EXIT_CRASH
+        if os.environ.get('VERIF_ONLY_CONFIG'):       # debugging aid (never used by a registered command)
+            cfgs = [c for c in cfgs if fnmatch.fnmatchcase(c['name'], os.environ['VERIF_ONLY_CONFIG'])]
         for n, cfg in enumerate(cfgs):
             tasks.append((gname, cfg, tier, {'want_shim': n == 0, 'l0': bool(g.l0 or os.environ.get('VERIF_L0') == 'contract')}))
     ctxm = mp.get_context('fork')
